@@ -9,6 +9,10 @@ import (
 	"strings"
 	"time"
 
+	"github.com/formancehq/go-libs/v5/pkg/query"
+	"github.com/formancehq/go-libs/v5/pkg/storage/bun/paginate"
+
+	"github.com/formancehq/ledger/internal/storage/common"
 	"github.com/formancehq/ledger/verifh/lx"
 )
 
@@ -149,4 +153,171 @@ func ReplayC20(ctx context.Context, path string) (string, error) {
 		verdict = "MISMATCH kind=" + vd.Kind + ": " + vd.Detail
 	}
 	return fmt.Sprintf("%s filter=%s variant=%s\n  expected: %v\n  listed:   %v\n  %s", res.Name, f.JSON(), rp.Variant.Name, vd.Want, vd.Got, verdict), nil
+}
+
+// Replay dispatches on the "property" field of a replay file.
+func Replay(ctx context.Context, path string) (string, error) {
+	raw, err := os.ReadFile(path)
+	if err != nil {
+		return "", err
+	}
+	var head struct {
+		Property string `json:"property"`
+	}
+	if err := json.Unmarshal(raw, &head); err != nil {
+		return "", err
+	}
+	switch head.Property {
+	case "C20":
+		return ReplayC20(ctx, path)
+	case "C21":
+		return replayC21(ctx, raw)
+	case "C37":
+		return replayC37(ctx, raw)
+	}
+	return "", fmt.Errorf("no replayer for property %q", head.Property)
+}
+
+func rebuild(ctx context.Context, h *History) (*site, error) {
+	boot, err := lx.Boot(ctx, []lx.LedgerSpec{{Name: ledgerName}})
+	if err != nil {
+		return nil, err
+	}
+	b, err := buildOne(ctx, boot, h)
+	if err != nil {
+		return nil, err
+	}
+	return b.open(ctx)
+}
+
+func replayC21(ctx context.Context, raw []byte) (string, error) {
+	var file struct {
+		Replay struct {
+			Listing  string  `json:"listing"`
+			History  History `json:"history"`
+			Variant  variant `json:"variant"`
+			Filter   any     `json:"filter"`
+			Order    string  `json:"order"`
+			PageSize int     `json:"pageSize"`
+		} `json:"replay"`
+	}
+	dec := json.NewDecoder(strings.NewReader(string(raw)))
+	dec.UseNumber()
+	if err := dec.Decode(&file); err != nil {
+		return "", err
+	}
+	rp := file.Replay
+	var l *listing
+	for _, x := range listings() {
+		if x.Name == rp.Listing {
+			l = x
+		}
+	}
+	if l == nil {
+		return "", fmt.Errorf("unknown listing %q", rp.Listing)
+	}
+	var f *F
+	if rp.Filter != nil {
+		var err error
+		if f, err = parseF(rp.Filter); err != nil {
+			return "", err
+		}
+	}
+	s, err := rebuild(ctx, &rp.History)
+	if err != nil {
+		return "", err
+	}
+	defer s.close()
+	order := paginate.Order(paginate.OrderAsc)
+	if rp.Order == "desc" {
+		order = paginate.OrderDesc
+	}
+	keys := l.expected(selectRows(l.res.rows(s.B.Ref, rp.Variant), f, l.res.atom), rp.Variant)
+	sc := &c21Scenario{l: l, v: rp.Variant, f: f, order: order, sorted: sortKeys(l, keys, order)}
+	fmt.Fprintln(os.Stderr, "=== REPLAY QUERY ===")
+	kind, what, pages := sc.walk(ctx, s, rp.PageSize, &c21Stats{})
+	verdict := "OK (pagination enumerates the reference list exactly once, in order; previous pages match)"
+	if kind != "" {
+		verdict = "MISMATCH kind=" + kind + ": " + what
+	}
+	return fmt.Sprintf("%s filter=%s variant=%s order=%s pageSize=%d\n  expected: %v\n  pages:    %v\n  %s", l.Name, jsonOf(f), rp.Variant.Name, rp.Order, rp.PageSize, sc.sorted, pageKeys(pages), verdict), nil
+}
+
+func replayC37(ctx context.Context, raw []byte) (string, error) {
+	var file struct {
+		Replay struct {
+			History  History `json:"history"`
+			Template struct {
+				ID string
+			} `json:"template"`
+			Vars          map[string]any          `json:"vars"`
+			RequestParams json.RawMessage         `json:"requestParams"`
+			Config        common.PaginationConfig `json:"paginationConfig"`
+		} `json:"replay"`
+	}
+	if err := json.Unmarshal(raw, &file); err != nil {
+		return "", err
+	}
+	rp := file.Replay
+	var t *tpl
+	for _, x := range templates() {
+		if x.ID == rp.Template.ID {
+			t = x
+		}
+	}
+	if t == nil {
+		return "", fmt.Errorf("unknown template %q", rp.Template.ID)
+	}
+	s, err := rebuild(ctx, &rp.History)
+	if err != nil {
+		return "", err
+	}
+	defer s.close()
+	ov := string(rp.RequestParams)
+	if ov == "null" {
+		ov = ""
+	}
+	full := map[string]any{}
+	for k, v := range t.Defaults {
+		full[k] = v
+	}
+	for k, v := range rp.Vars {
+		full[k] = v
+	}
+	eff := defaultParams(t.Resource, rp.Config)
+	if err := eff.apply("template", t.Params); err != nil {
+		return "", err
+	}
+	if err := eff.apply("request", ov); err != nil {
+		return "", err
+	}
+	qb, err := query.ParseJSON(t.Direct(full))
+	if err != nil {
+		return "", err
+	}
+	fmt.Fprintln(os.Stderr, "=== REPLAY QUERY ===")
+	want, werr := walkDirect(ctx, s.Ctrl, t.Resource, eff, qb, rp.Config)
+	body := map[string]any{}
+	if len(rp.Vars) > 0 {
+		body["vars"] = rp.Vars
+	}
+	if ov != "" {
+		body["params"] = json.RawMessage(ov)
+	}
+	got, _, gerr := walkTemplate(ctx, s.Ctrl, t.ID, body, rp.Config)
+	if werr != nil || gerr != nil {
+		return fmt.Sprintf("template %s: direct error=%v RunQuery error=%v", t.ID, werr, gerr), nil
+	}
+	verdict := "OK (RunQuery equals the direct query on every page)"
+	if i, d := compareWalks(got, want); d != "" {
+		var gp, wp *page
+		if i < len(got) {
+			gp = got[i]
+		}
+		if i < len(want) {
+			wp = want[i]
+		}
+		verdict = fmt.Sprintf("MISMATCH page %d (%s)\n  RunQuery: %s\n  direct:   %s", i+1, d, gp.brief(), wp.brief())
+	}
+	return fmt.Sprintf("template %s vars=%s templateParams=%s requestParams=%s direct filter=%s\n  %s", t.ID, js(rp.Vars), orNull(t.Params), orNull(ov), t.Direct(full), verdict), nil
 }
